@@ -7,6 +7,50 @@
 use quote::ToTokens;
 use serde_json::{json, Value};
 
+/// Every path that occurs in type position inside `tokens` (segments without generic arguments).
+struct PathCollector(Vec<String>);
+impl<'ast> syn::visit::Visit<'ast> for PathCollector {
+    fn visit_type_path(&mut self, p: &'ast syn::TypePath) {
+        if p.qself.is_none() {
+            let segs: Vec<String> = p.path.segments.iter().map(|s| s.ident.to_string()).collect();
+            let lead = if p.path.leading_colon.is_some() { "::" } else { "" };
+            self.0.push(format!("{lead}{}", segs.join("::")));
+        }
+        syn::visit::visit_type_path(self, p);
+    }
+}
+
+fn type_paths(item: &syn::Item) -> Vec<String> {
+    use syn::visit::Visit;
+    let mut c = PathCollector(vec![]);
+    c.visit_item(item);
+    c.0.sort();
+    c.0.dedup();
+    c.0
+}
+
+fn generic_names(g: &syn::Generics) -> Vec<String> {
+    g.params.iter().filter_map(|p| match p { syn::GenericParam::Type(t) => Some(t.ident.to_string()), _ => None }).collect()
+}
+
+/// Every type parameter declared anywhere inside the item (item level and method level).
+struct GenericCollector(Vec<String>);
+impl<'ast> syn::visit::Visit<'ast> for GenericCollector {
+    fn visit_type_param(&mut self, p: &'ast syn::TypeParam) {
+        self.0.push(p.ident.to_string());
+        syn::visit::visit_type_param(self, p);
+    }
+}
+
+fn all_generic_names(item: &syn::Item) -> Vec<String> {
+    use syn::visit::Visit;
+    let mut c = GenericCollector(vec![]);
+    c.visit_item(item);
+    c.0.sort();
+    c.0.dedup();
+    c.0
+}
+
 fn attr_strings(attrs: &[syn::Attribute]) -> Vec<String> {
     attrs.iter().map(|a| a.to_token_stream().to_string()).collect()
 }
@@ -66,23 +110,24 @@ pub fn items_of(items: &[syn::Item], path: &str, out: &mut Vec<Value>) {
             }
             syn::Item::Struct(s) => out.push(json!({"mod": path, "kind": "struct", "name": s.ident.to_string(),
                 "derives": derives(&s.attrs), "repr": reprs(&s.attrs), "generics": generics_of(&s.generics),
-                "fields": fields_of(&s.fields), "attrs": attr_strings(&s.attrs), "tokens": tokens})),
+                "fields": fields_of(&s.fields), "attrs": attr_strings(&s.attrs), "tokens": tokens,
+                "uses": type_paths(it), "tparams": all_generic_names(it)})),
             syn::Item::Union(s) => out.push(json!({"mod": path, "kind": "union", "name": s.ident.to_string(),
                 "derives": derives(&s.attrs), "repr": reprs(&s.attrs), "generics": generics_of(&s.generics),
                 "fields": s.fields.named.iter().map(|f| json!([f.ident.as_ref().unwrap().to_string(), f.ty.to_token_stream().to_string(), true])).collect::<Vec<_>>(),
-                "attrs": attr_strings(&s.attrs), "tokens": tokens})),
+                "attrs": attr_strings(&s.attrs), "tokens": tokens, "uses": type_paths(it), "tparams": all_generic_names(it)})),
             syn::Item::Enum(s) => out.push(json!({"mod": path, "kind": "enum", "name": s.ident.to_string(),
                 "derives": derives(&s.attrs), "repr": reprs(&s.attrs), "generics": generics_of(&s.generics),
                 "variants": s.variants.iter().map(|v| json!([v.ident.to_string(), v.discriminant.as_ref().map(|d| d.1.to_token_stream().to_string())])).collect::<Vec<_>>(),
                 "attrs": attr_strings(&s.attrs), "tokens": tokens})),
             syn::Item::Type(s) => out.push(json!({"mod": path, "kind": "type", "name": s.ident.to_string(),
                 "generics": generics_of(&s.generics), "ty": s.ty.to_token_stream().to_string(),
-                "attrs": attr_strings(&s.attrs), "tokens": tokens})),
+                "attrs": attr_strings(&s.attrs), "tokens": tokens, "uses": type_paths(it), "tparams": all_generic_names(it)})),
             syn::Item::Const(s) => out.push(json!({"mod": path, "kind": "const", "name": s.ident.to_string(),
                 "ty": s.ty.to_token_stream().to_string(), "expr": s.expr.to_token_stream().to_string(),
                 "attrs": attr_strings(&s.attrs), "tokens": tokens})),
             syn::Item::Static(s) => out.push(json!({"mod": path, "kind": "static", "name": s.ident.to_string(),
-                "ty": s.ty.to_token_stream().to_string(), "attrs": attr_strings(&s.attrs), "tokens": tokens})),
+                "ty": s.ty.to_token_stream().to_string(), "attrs": attr_strings(&s.attrs), "tokens": tokens, "uses": type_paths(it)})),
             syn::Item::Fn(s) => out.push(json!({"mod": path, "kind": "fn", "name": s.sig.ident.to_string(),
                 "sig": s.sig.to_token_stream().to_string(), "attrs": attr_strings(&s.attrs), "tokens": tokens})),
             syn::Item::Use(s) => out.push(json!({"mod": path, "kind": "use", "name": s.tree.to_token_stream().to_string(),
@@ -97,14 +142,14 @@ pub fn items_of(items: &[syn::Item], path: &str, out: &mut Vec<Value>) {
                 }
                 out.push(json!({"mod": path, "kind": "impl", "name": s.self_ty.to_token_stream().to_string().replace(' ', ""),
                     "trait": tr, "generics": generics_of(&s.generics), "fns": fns,
-                    "attrs": attr_strings(&s.attrs), "tokens": tokens}));
+                    "attrs": attr_strings(&s.attrs), "tokens": tokens, "uses": type_paths(it), "tparams": all_generic_names(it)}));
             }
             syn::Item::ForeignMod(fm) => {
                 let abi = fm.abi.name.as_ref().map(|n| n.value()).unwrap_or_default();
                 let unsafety = fm.unsafety.is_some();
                 let battrs = attr_strings(&fm.attrs);
                 out.push(json!({"mod": path, "kind": "foreign_mod", "name": "", "abi": abi, "unsafety": unsafety,
-                    "attrs": battrs, "n": fm.items.len(), "tokens": tokens}));
+                    "attrs": battrs, "n": fm.items.len(), "tokens": tokens, "uses": type_paths(it)}));
                 for fi in &fm.items {
                     let (kind, name, attrs) = match fi {
                         syn::ForeignItem::Fn(f) => ("foreign_fn", f.sig.ident.to_string(), attr_strings(&f.attrs)),
